@@ -637,3 +637,101 @@ Definition table_commit (tbl : list (N * N)) (s : tstate) (batch : list N) : cre
   if existsb (N.eqb 3) beh then CPanic _ (s ++ batch)
   else if existsb (N.eqb 2) beh then CErr _ 2 (s ++ batch)
   else COk _ (s ++ batch) (lenN s) (lenN batch).
+
+(* ------------------------------------------------------------------ scenario driver (public API calls in sequence) *)
+
+Inductive op :=
+| OpIngest (k : hkey) (id : N) | OpTicketed (k : hkey) (id ticket : N) | OpPass
+| OpResolve (g rid : N) | OpElig (k : hkey) (b : bool) | OpSwapProv.
+
+Definition disp_code (d : disp) : N :=
+  match d with
+  | DAccepted => 0 | DDuplicate => 1 | DUnknownHead => 2 | DUnknownSubmission => 3
+  | DAlreadyStaged => 4 | DDuplicateRuntimeIngress => 5
+  end.
+Definition err_code (e : rterr) : N :=
+  match e with
+  | EEngine _ => 1 | EFrontierOverflow _ => 2 | EGlobalOverflow => 3 | EProvenance => 4
+  | EUnknownHead _ => 5 | EUnknownWorldline _ => 6 | ECorrMismatch => 7 | ERuntimeFaultActive _ => 8
+  | EGenOverflow => 9
+  end.
+Definition cause_code (c : cause) : N := match c with CauseErr e => err_code e | CausePanic => 10 end.
+
+Section Scenario.
+Variable S : Type.
+Variable commit : S -> list N -> cres S.
+
+(* (kind, a, b, steps): kind 0 ingest a=disp; 1 ticketed a,b=disps (b=9: not attempted); 2 pass a=0 ok / err code / 10 panic;
+   3 resolve a=0 ok,1 unknown,2 already; 4 eligibility a=0 ok,1 unknown; 5 swap *)
+Definition oout := (N * N * N * list step)%type.
+
+Definition run_op (st : rt S * provmap) (o : op) : (rt S * provmap) * oout :=
+  let '(r, p) := st in
+  match o with
+  | OpIngest k id => let '(r', d) := ingest S r k id in ((r', p), (0, disp_code d, 0, []))
+  | OpTicketed k id t =>
+      let '(r1, d1) := submit S r k id in
+      match d1 with
+      | DAccepted | DDuplicate =>
+          let '(r2, d2) := stage S r1 k id t in ((r2, p), (1, disp_code d1, disp_code d2, []))
+      | _ => ((r1, p), (1, disp_code d1, 9, []))
+      end
+  | OpPass =>
+      let '(r', p', out) := super_tick S commit r p in
+      ((r', p'), match out with
+                 | OOk recs => (2, 0, 0, recs)
+                 | OErr e => (2, err_code e, 0, [])
+                 | OPanic => (2, 10, 0, [])
+                 end)
+  | OpResolve g rid =>
+      match resolve_fault S r g rid with
+      | ResOk _ r' => ((r', p), (3, 0, 0, []))
+      | ResUnknown _ => ((r, p), (3, 1, 0, []))
+      | ResAlready _ => ((r, p), (3, 2, 0, []))
+      end
+  | OpElig k b =>
+      match set_eligibility S r k b with
+      | Some r' => ((r', p), (4, 0, 0, []))
+      | None => ((r, p), (4, 1, 0, []))
+      end
+  | OpSwapProv => ((r, map (fun wf => (fst wf, [])) (fronts r)), (5, 0, 0, []))
+  end.
+
+Fixpoint run_ops (st : rt S * provmap) (ops : list op) : list (oout * (rt S * provmap)) :=
+  match ops with
+  | [] => []
+  | o :: rest => let '(st', out) := run_op st o in (out, st') :: run_ops st' rest
+  end.
+End Scenario.
+
+(* WorldlineRuntime::new + register_worldline + register_writer_head + ProvenanceService::register_worldline *)
+Definition rt_init {S} (s0 : S) (worlds : list N) (hs : list (hkey * (policy * bool))) : rt S * provmap :=
+  ({| heads := fold_left (fun m kh => set hkey_cmp (fst kh)
+                             {| h_pending := []; h_policy := fst (snd kh); h_admitted := true; h_paused := snd (snd kh) |} m) hs [];
+      fronts := fold_left (fun m w => set N.compare w {| f_tick := 0; f_state := s0; f_committed := [] |} m) worlds [];
+      gtick := 0;
+      cor := {| witnessed := []; pending_subs := []; staged := []; by_tid := []; by_sub := []; by_ticket := [];
+                by_ref := []; by_basis := [] |};
+      faults := []; faulted_heads := []; rt_fault := None; next_gen := 0 |},
+   fold_left (fun m w => set N.compare w [] m) worlds []).
+
+(* canonical view compared with the implementation's dump *)
+Definition view (st : rt tstate * provmap) :=
+  let '(r, p) := st in
+  (gtick r,
+   map (fun wf => (fst wf, f_tick (snd wf),
+                   match find N.compare (fst wf) p with Some es => (1, lenN es) | None => (0, 0) end,
+                   f_state (snd wf),
+                   map (fun se => (snd (fst (fst se)), snd (fst se))) (f_committed (snd wf)))) (fronts r),
+   map (fun kh => (fst kh, map fst (h_pending (snd kh)), h_admitted (snd kh), h_paused (snd kh),
+                   mem hkey_cmp (fst kh) (faulted_heads r))) (heads r),
+   map (fun f => (ft_gen f, match ft_scope f with SHead k => (0, k) | SRuntime => (1, (0, 0)) end,
+                  match ft_status f with Active => (0, 0) | Resolved rid => (1, rid) end,
+                  cause_code (ft_cause f))) (faults r),
+   match rt_fault r with Some _ => 1 | None => 0 end,
+   map (fun sc => (fst sc, fst (snd (c_ref (snd sc))), fst (snd (snd (c_ref (snd sc)))))) (by_tid (cor r)),
+   lenN (pending_subs (cor r)),
+   runnable_keys _ r).
+
+Definition run_case (tbl : list (N * N)) (worlds : list N) (hs : list (hkey * (policy * bool))) (ops : list op) :=
+  map (fun os => (fst os, view (snd os))) (run_ops tstate (table_commit tbl) (rt_init [] worlds hs) ops).
